@@ -341,8 +341,10 @@ def run_check(prop, tier):
         print('KNOWN-FINDING: property=%s %s (%d runs; %s)' % (prop, key, n, known[key].get('description', '')))
     for key in sorted(set(known) - set(agg['known'])):
         print('KNOWN-FINDING-NOT-REPRODUCED: property=%s %s' % (prop, key))
+    too_many_limits = agg['limits'] > max(5, agg['runs'] // 50)
     for e in agg['errors'][:5]:
-        print('HARNESS-%s run_index=%s\n%s' % (e[0].upper(), e[1], e[2]))
+        if e[0] == 'error' or too_many_limits:
+            print('HARNESS-%s run_index=%s\n%s' % (e[0].upper(), e[1], e[2]))
     probes = getattr(mod, 'PROBES', [])
     for p in probes:
         if agg['stats'].get(p, 0) == 0 and agg['runs'] > 200:
@@ -366,7 +368,7 @@ def run_check(prop, tier):
     if agg['runs'] == 0:
         print('HARNESS-ERROR property=%s no run completed' % prop)
         return 2
-    if agg['limits'] > max(5, agg['runs'] // 50):
+    if too_many_limits:
         print('HARNESS-LIMIT property=%s %d of %d runs hit a step cap' % (prop, agg['limits'], agg['runs']))
         return 2
     return 0
